@@ -235,13 +235,43 @@ def gen_wild(rng, sh):
     return ["fill_blackbox", inst, fill_sub(rng, ins, outs)]
 
 
+def gen_mixed(rng, sh):
+    """multi-source / multi-target connect and add(fanin=[...], fanout=[...]) whose lists mix ordinary nodes and blackbox pins
+    in both orders (seeded C07-s8: a per-source check that stops at the first ordinary source)"""
+    names = sorted(sh.n)
+    pins = [n for n in names if sh.n[n][0] in ("bb_input", "bb_output")]
+    plain = [n for n in names if sh.n[n][0] not in ("bb_input", "bb_output")]
+    if not pins or not plain:
+        return None
+    multi = [n for n in plain if sh.n[n][0] in lib.MULTI]
+    bufs = [n for n in plain if sh.n[n][0] == "buf" and not sh.n[n][2]]
+    srcs = pick(rng, plain, rng.randint(1, 2)) + pick(rng, pins, rng.randint(1, 2))
+    rng.shuffle(srcs)
+    if rng.random() < 0.5:
+        srcs.sort(key=lambda x: x in pins)           # ordinary nodes first: the order that a stopped loop lets through
+    tgts = pick(rng, multi, rng.randint(0, 2)) + pick(rng, bufs, rng.randint(0, 1)) + pick(rng, pins, rng.randint(0, 1))
+    rng.shuffle(tgts)
+    k = rng.random()
+    free = [n for n in NAMES if n not in sh.n] or ["h"]
+    if k < 0.4 or not tgts:
+        return ["add", rng.choice(free), rng.choice(lib.MULTI), srcs, pick(rng, multi + bufs, rng.randint(0, 1)) or None, False, rng.random() < 0.2]
+    if k < 0.8:
+        return ["connect", srcs, tgts]
+    return ["add", rng.choice(free), rng.choice(lib.MULTI + ["buf"]), pick(rng, plain, 1), tgts, False, False]
+
+
 def gen_illegal(rng, sh):
     """targeted illegal calls (each is rejected by one particular check, most after a partial effect)"""
     names = sorted(sh.n)
     by = lambda ts: [n for n in names if sh.n[n][0] in ts]
     fresh = [n for n in NAMES if n not in sh.n] or ["h"]
     n = rng.choice(fresh)
-    r = rng.randint(0, 15)
+    r = rng.randint(0, 20)
+    if r >= 16:
+        op = gen_mixed(rng, sh)
+        if op:
+            return op
+        r = rng.randint(0, 15)
     if r == 0 and names:
         return ["add", rng.choice(names), rng.choice(TYPES), None, None, False, False]            # duplicate
     if r == 1:
